@@ -4,6 +4,7 @@
    errors and the read routes are covered by the differential fuzz stream of the check, not by a theorem. *)
 From PV Require Import Proofs.Defs Proofs.C15.
 From PV Require Import Gen.GenRoutes Spec.Pipeline Gen.GenExc Spec.ExcSpec Proofs.C15x.
+From PV Require Import Gen.GenConsts Model.Parse Proofs.C15p.
 
 (* no write request, in any state (reachable or not), at any microversion, is answered with a 5xx:
    every failure of the object layer is converted into a 4xx *)
@@ -86,3 +87,66 @@ Proof.
   destruct exc_traits_set as [A [B C]]. repeat (split; [assumption|]). exact exc_names.
 Qed.
 Print Assumptions C15_exceptions_other.
+
+(* ---------------------------------------------------------------------------------------------------------------
+   Query-string value parsers (placement/util.py, placement/lib.py; Model/Parse.v, tied to the code by the parse
+   stream of the check).  Strings are arbitrary lists of code points: control characters, any Unicode digit block,
+   any length.  None of the eight value parsers ends in an exception other than webob.exc.HTTPBadRequest ... *)
+Theorem C15_value_parsers_never_escape :
+  (forall qs, to_pres (normalize_resources_qs_param qs) <> PEscape) /\
+  (forall val af aa, to_pres (normalize_traits_qs_param val af aa) <> PEscape) /\
+  (forall val af, to_pres (normalize_traits_qs_param_to_legacy_value val af) <> PEscape) /\
+  (forall minor values, to_pres (normalize_traits_qs_params minor values) <> PEscape) /\
+  (forall v, to_pres (normalize_member_of_qs_param v) <> PEscape) /\
+  (forall minor values, to_pres (normalize_member_of_qs_params minor values) <> PEscape) /\
+  (forall v, to_pres (normalize_in_tree_qs_params v) <> PEscape) /\
+  (forall limit gp rr ss, to_pres (rwp_from_request limit gp rr ss) <> PEscape).
+Proof. exact c15_value_parsers_never_escape. Qed.
+Print Assumptions C15_value_parsers_never_escape.
+
+(* ... and what they accept is what the search code relies on: amounts within the database integer range (the
+   bound of fix fc8d3cd), one entry per class, class names free of the separators *)
+Theorem C15_resources_accepted_wf : forall qs d,
+  normalize_resources_qs_param qs = Ret d ->
+  d <> [] /\ NoDup (map fst d) /\
+  forall k v, In (k, v) d -> 1 <= v <= MAX_INT /\ ~ In 58 k /\ ~ In 44 k.
+Proof. exact resources_accepted_wf. Qed.
+Print Assumptions C15_resources_accepted_wf.
+
+(* forbidden traits only from 1.22, any-of lists only from 1.39 *)
+Theorem C15_traits_accepted_wf : forall minor values req forb,
+  normalize_traits_qs_params minor values = Ret (req, forb) ->
+  (forb <> [] -> 22 <= minor) /\ (minor < 39 -> Forall (fun s => length s = 1%nat) req).
+Proof. exact traits_params_accepted_wf. Qed.
+Print Assumptions C15_traits_accepted_wf.
+
+(* aggregates are uuid-like; forbidden aggregates only from 1.32, repeated member_of only from 1.24 *)
+Theorem C15_member_of_accepted_wf : forall minor values req forb,
+  normalize_member_of_qs_params minor values = Ret (req, forb) ->
+  Forall uuids req /\ uuids forb /\ (forb <> [] -> 32 <= minor) /\ ((1 < length values)%nat -> 24 <= minor).
+Proof. exact member_of_params_accepted_wf. Qed.
+Print Assumptions C15_member_of_accepted_wf.
+
+Theorem C15_in_tree_accepted_wf : forall v r,
+  normalize_in_tree_qs_params v = Ret r -> r = strip v /\ is_uuid_like r = true.
+Proof. exact in_tree_accepted_wf. Qed.
+Print Assumptions C15_in_tree_accepted_wf.
+
+(* limit >= 1 and read from the FIRST value given (the value of fix e9a5c05); root_required never both requires and
+   forbids a trait; same_subtree entries are non-empty lists of non-empty suffixes *)
+Theorem C15_request_wide_accepted_wf : forall limit gp rr ss l g a t,
+  rwp_from_request limit gp rr ss = Ret (l, g, a, t) ->
+  (forall n, l = Some n -> 1 <= n /\ exists l0 rest, limit = l0 :: rest /\ int_of l0 = Ret n) /\
+  (l = None -> limit = []) /\
+  (g = match gp with [] => None | g0 :: _ => Some g0 end) /\
+  (forall rq fb, a = Some (rq, fb) -> length rr = 1%nat /\ forall x, In x fb -> set_mem x rq = false) /\
+  (a = None -> rr = []) /\
+  length t = length ss /\ Forall (fun s => s <> [] /\ ~ In [] s) t.
+Proof. exact rwp_accepted_wf. Qed.
+Print Assumptions C15_request_wide_accepted_wf.
+
+(* int() as the parsers see it: every ASCII decimal string within the interpreter's digit limit is read as its value *)
+Theorem C15_int_of_ascii : forall ds, are_digits ds -> ds <> [] -> Z.of_nat (length ds) <= INT_MAX_STR_DIGITS ->
+  int_of (ascii_digits ds) = Ret (dec_value ds 0).
+Proof. exact int_of_ascii_digits. Qed.
+Print Assumptions C15_int_of_ascii.
